@@ -375,3 +375,10 @@ func chainTo(parent map[*ssa.Function]*ssa.Function, fn *ssa.Function) string {
 	}
 	return strings.Join(names, " → ")
 }
+
+func constInt64(c *types.Const) (int64, bool) {
+	if c.Val().Kind() != constant.Int {
+		return 0, false
+	}
+	return constant.Int64Val(c.Val())
+}
